@@ -7,6 +7,7 @@ import (
 	"fmt"
 	"os"
 	"runtime"
+	"runtime/debug"
 	"strconv"
 	"testing"
 	"time"
@@ -44,6 +45,7 @@ func (e Env) Thorough() bool { return e.Tier == "thorough" }
 
 // Main runs f and writes its result.  f must fill Property, Level, Coverage, Violations.
 func Main(t *testing.T, f func(env Env) *Result) {
+	debug.SetGCPercent(400)
 	env := Env{Tier: os.Getenv("VERIF_TIER"), T: t, Workers: runtime.NumCPU()}
 	if env.Tier == "" {
 		env.Tier = "quick"
@@ -54,9 +56,9 @@ func Main(t *testing.T, f func(env Env) *Result) {
 	if s := os.Getenv("VERIF_WORKERS"); s != "" {
 		env.Workers, _ = strconv.Atoi(s)
 	}
-	budget := 8 * time.Minute
+	budget := 150 * time.Second
 	if env.Tier == "thorough" {
-		budget = 60 * time.Minute
+		budget = 40 * time.Minute
 	}
 	if s := os.Getenv("VERIF_BUDGET_S"); s != "" {
 		n, _ := strconv.Atoi(s)
